@@ -11,6 +11,7 @@ import (
 	"strings"
 	"sync"
 	"sync/atomic"
+	"syscall"
 	"time"
 )
 
@@ -103,6 +104,9 @@ func runC10(em *vEmitter, r *vRng) {
 			Human: map[string]interface{}{"update": cap(st.updateChan), "notify": cap(st.hooks.Notify)}})
 		ms.cleanup()
 	}
+	// reloads: the agent keeps answering after any number of SIGHUPs (successful and failed ones), with
+	// and without a hooks directory
+	c10Reloads(em, r)
 	// a backlog of logins that takes the dispatcher many seconds to work off (expensive hashes): every
 	// one of them is answered, and the agent answers other requests afterwards
 	c10SlowBurst(em, r)
@@ -329,4 +333,57 @@ func c10SlowBurst(em *vEmitter, r *vRng) {
 		ms.cleanup()
 	}
 	em.emit(c)
+}
+
+func c10Reloads(em *vEmitter, r *vRng) {
+	for _, withHooks := range []bool{false, true} {
+		ms := mNewStore("c10reload", r, 1)
+		ms.plant("root", true, 1, 1600000000, r.bytes(16), []byte("rootpw"), "")
+		hooks := ""
+		if withHooks {
+			hooks = mkHooksDir(ms.root)
+		}
+		st, err := NewStore(ms.cfgfile, "", "", "", hooks)
+		if err != nil {
+			panic(err)
+		}
+		api := st.GetInterface()
+		viol := ""
+		probe := func(what string) {
+			kinds := map[string]func(){"authenticate": func() { api.Authenticate("root", "rootpw") }, "list": func() { api.List() },
+				"add": func() { api.Add("n"+what, "pw", false) }, "check": func() { api.Check() }}
+			for k, f := range kinds {
+				ch := make(chan struct{})
+				go func() { f(); close(ch) }()
+				select {
+				case <-ch:
+				case <-time.After(8 * time.Second):
+					if viol == "" {
+						viol = fmt.Sprintf("%s (hooks directory configured: %v): %s request not answered within 8 s - the agent is wedged", what, withHooks, k)
+					}
+					return
+				}
+			}
+		}
+		good := mYaml(ms.base, 1, ms.params)
+		n := 0
+		for i, doc := range []string{good, good, "basedir: [broken\n", good, mYaml(ms.base, 2, ms.params), "", good, good} {
+			if viol != "" {
+				break
+			}
+			os.WriteFile(ms.cfgfile, []byte(doc), 0600)
+			syscall.Kill(os.Getpid(), syscall.SIGHUP)
+			time.Sleep(60 * time.Millisecond)
+			n++
+			probe(fmt.Sprintf("after-reload-%d", i+1))
+		}
+		c := vCase{Prop: "C10", Kind: "load", Class: fmt.Sprintf("load/reloads/hooks=%v", withHooks), Nontrivial: true,
+			Human: map[string]interface{}{"reloads": n, "hooks_dir": withHooks}}
+		if viol != "" {
+			c.Violation = viol
+		} else {
+			ms.cleanup()
+		}
+		em.emit(c)
+	}
 }
